@@ -275,7 +275,7 @@ func c04(c *core.Check) {
 	}
 
 	// ---- R5 root never dereferences its parent (H4)
-	r5 := c.Rule("R5", "every method call through ComputedStyle.parentStyle (nil on the root element) is dominated by a test that it is not nil (`!= nil` or !isRootElement())", 5)
+	r5 := c.Rule("R5", "every method call through ComputedStyle.parentStyle (nil on the root element) is dominated by a test that it is not nil (`!= nil` or !isRootElement())", 4)
 	parentNilGuard(c, r5)
 }
 
@@ -793,7 +793,7 @@ func isDefaultValueConst(v ssa.Value, want int64) bool {
 
 func c04Skeleton(c *core.Check) {
 	p := c.Prog
-	r7 := c.Rule("R7", "defaulting skeleton of (*ComputedStyle).cascadeValue and (*AnonymousStyle).Get: with no cascaded entry the value is Inherit iff Inherited.Has(key.KnownProp) || key.Var != \"\" and Initial otherwise; on the root Inherit becomes Initial; Initial is replaced by InitialValues[key.KnownProp]; Inherit by parentStyle.Get(key)", 9)
+	r7 := c.Rule("R7", "defaulting skeleton of (*ComputedStyle).cascadeValue and (*AnonymousStyle).Get: with no cascaded entry the value is Inherit iff Inherited.Has(key.KnownProp) || key.Var != \"\" and Initial otherwise; on the root Inherit becomes Initial; Initial is replaced by InitialValues[key.KnownProp]; Inherit by parentStyle.Get(key)", 8)
 	cv := p.Method("html/tree", "ComputedStyle", "cascadeValue")
 	if cv == nil {
 		r7.Anchor("html/tree.(*ComputedStyle).cascadeValue")
@@ -1326,7 +1326,7 @@ func parentNilGuard(c *core.Check, r *core.Rule) {
 // c04ComputedUnits: the dimensions built by the computer functions carry a computed unit.
 func c04ComputedUnits(c *core.Check) {
 	p := c.Prog
-	r := c.Rule("R10", "every dimension the computer functions of html/tree build with a constant unit carries a computed unit (px, % or the unit-less scalar): an absolute or font-relative unit written here would skip the conversion to px that every other length goes through", 8)
+	r := c.Rule("R10", "every dimension the computer functions of html/tree build with a constant unit carries a computed unit (px, % or the unit-less scalar): an absolute or font-relative unit written here would skip the conversion to px that every other length goes through", 7)
 	unitName := map[int64]string{}
 	for v, k := range p.ConstsOfType("css/properties", "Unit") {
 		unitName[v] = k.Name()
